@@ -3,6 +3,7 @@ package main
 import (
 	"encoding/hex"
 	"fmt"
+	"os"
 	"sort"
 	"strconv"
 	"strings"
@@ -172,28 +173,97 @@ func interleave(muts []string, obs []string) []string {
 	return out
 }
 
-// bulkOps builds a fill / partial drain / refill / full drain run that crosses the usual capacity thresholds
-// of slice- and array-backed containers (64, 128, 256, 512, 1024): push n distinct-ish values (zero values
-// included), pop down to n/4 - 1, push a few again, pop everything, observing after every operation.
+// extraSizes: thresholds handed over by bin/check (VERIF_SIZES): integer constants that a change introduced
+// into the source under test.  They only steer generator sizes.
+func extraSizes() []int {
+	var out []int
+	for _, f := range strings.Split(os.Getenv("VERIF_SIZES"), ",") {
+		if n, err := strconv.Atoi(strings.TrimSpace(f)); err == nil && n >= 8 && n <= 300000 {
+			out = append(out, n)
+		}
+	}
+	return out
+}
+
+// sparse reports whether the extra observers run after step i of a run of n steps: always for small runs, for
+// large ones only near powers of two, near the extra sizes, near quarter/half/three-quarter marks and every n/64.
+func sparse(i, level, n int) bool {
+	if n <= 3000 {
+		return true
+	}
+	if i%(n/64+1) == 0 {
+		return true
+	}
+	near := func(x int) bool { return level >= x-2 && level <= x+2 }
+	for p := 64; p <= 2*n; p *= 2 {
+		if near(p) || near(p/4*3) || near(p+p/4) {
+			return true
+		}
+	}
+	for _, s := range extraSizes() {
+		if near(s) || near(s/2) || near(s/4) || near(2*s) {
+			return true
+		}
+	}
+	return false
+}
+
+// bulkOps builds a fill / partial drain (down to `keep` elements) / small refill / full drain run that crosses the
+// usual capacity thresholds of slice- and array-backed containers; the observers run after every operation for
+// small runs and sparsely (see sparse) for large ones; every push/pop result is always checked.
 func bulkOps(push func(i int) string, pop string, obs []string, n int) []string {
+	return bulkPlan(push, pop, obs, n, n-n/4+1, 5)
+}
+
+// bulkPlan: push n, pop d, push refill, pop everything.
+func bulkPlan(push func(i int) string, pop string, obs []string, n, d, refill int) []string {
 	var ops []string
-	add := func(op string) { ops = append(ops, op); ops = append(ops, obs...) }
+	level, step, total := 0, 0, n+d+refill+(n-d+refill)+8
+	add := func(op string, delta int) {
+		ops = append(ops, op)
+		level += delta
+		if level < 0 {
+			level = 0
+		}
+		step++
+		if sparse(step, level, total) {
+			ops = append(ops, obs...)
+		}
+	}
 	for i := 0; i < n; i++ {
-		add(push(i))
+		add(push(i), 1)
 	}
-	for i := 0; i < n-n/4+1; i++ {
-		add(pop)
+	for i := 0; i < d; i++ {
+		add(pop, -1)
 	}
-	for i := 0; i < 5; i++ {
-		add(push(n + i))
+	for i := 0; i < refill; i++ {
+		add(push(n+i), 1)
 	}
-	for i := 0; i < n/4+8; i++ {
-		add(pop)
+	for i := 0; i < n-d+refill+8; i++ {
+		add(pop, -1)
 	}
 	return ops
 }
 
-// bulkSizes are the fill levels of the bulk runs (just above the power-of-two growth steps).
+// bulkPlans lists (n, d, refill) plans: the standard sizes, and for every extra size s runs that hold more than
+// s, 2s and 4s elements, drain by more than s / to a quarter, and refill across the next capacity steps.
+func bulkPlans(thorough bool) [][3]int {
+	var out [][3]int
+	for _, n := range bulkSizes(thorough) {
+		out = append(out, [3]int{n, n - n/4 + 1, 5})
+	}
+	for _, s := range extraSizes() {
+		for _, n := range []int{s + 2, 2*s + 3, 4*s + 5} {
+			if n > 300000 {
+				continue
+			}
+			out = append(out, [3]int{n, n - n/4 + 1, 5}, [3]int{n, s + 404, n}, [3]int{n, n/2 - 3, n / 2})
+		}
+	}
+	return out
+}
+
+// bulkSizes are the fill levels of the standard bulk runs (just above the power-of-two growth steps).
 func bulkSizes(thorough bool) []int {
 	if thorough {
 		return []int{33, 65, 129, 130, 257, 300, 513, 1025, 2049, 4100}
